@@ -25,14 +25,15 @@ func init() {
 //         "cfg=<a><p><m> <METHOD> <route pattern> H=<template>"   (header present; the template is
 //          everything after "H=", verbatim, with $A = admin token, $U = an issued token, $R = a token that was
 //          issued, used successfully and then revoked, $X = a never issued value)
-//         a = use_auth, p = profiling endpoints, m = metrics; the route pattern is the one of
+//         a = use_auth, p = profiling endpoints, m = metrics, an optional 4th character 'f' = the token store
+//         fails (SELECT on the tokens table returns a storage error) during the request; the route pattern is the one of
 //         engine.Routes() (parameters are instantiated by the harness).
 // obs   : "pass"                                   the request was not answered 401
 //         "401 <code> unchanged|CHANGED(<tables>)"  structured 401 (code of the JSON body) and whether the
 //                                                   tokens / webhooks / headers tables changed across the request
 //         "401 UNSTRUCTURED ..."                    401 whose body is not {"code":..,"message":..}
 
-type c09Cfg struct{ auth, prof, met bool }
+type c09Cfg struct{ auth, prof, met, fail bool }
 
 func (k c09Cfg) String() string {
 	b := func(x bool) string {
@@ -40,6 +41,9 @@ func (k c09Cfg) String() string {
 			return "1"
 		}
 		return "0"
+	}
+	if k.fail {
+		return b(k.auth) + b(k.prof) + b(k.met) + "f"
 	}
 	return b(k.auth) + b(k.prof) + b(k.met)
 }
@@ -50,9 +54,12 @@ func c09Configs() []c09Cfg {
 	for _, m := range []bool{false, true} {
 		for _, a := range []bool{false, true} {
 			for _, p := range []bool{false, true} {
-				out = append(out, c09Cfg{a, p, m})
+				out = append(out, c09Cfg{a, p, m, false})
 			}
 		}
+		// the same routes while every token lookup FAILS with a storage error (the tokens table is made unavailable
+		// for the duration of each request): authentication must fail closed, the admin token must still work
+		out = append(out, c09Cfg{true, false, m, true})
 	}
 	return out
 }
@@ -271,11 +278,21 @@ func (e *c09Env) request(method, pattern, hdr, query string) (obs string) {
 	before := e.digests()
 	var code int
 	var out string
+	if e.k.fail {
+		if _, err := e.fs.DB.Exec(`ALTER TABLE tokens RENAME TO tokens_unavailable`); err != nil {
+			return "HARNESS-ERROR " + err.Error()
+		}
+	}
 	if strings.HasPrefix(hdr, "=") && hdr == "=" {
 		// an Authorization header that is present but empty
 		code, out = e.fs.Do(method, target, body, map[string]string{"Authorization": ""})
 	} else {
 		code, out = e.fs.Do(method, target, body, h)
+	}
+	if e.k.fail {
+		if _, err := e.fs.DB.Exec(`ALTER TABLE tokens_unavailable RENAME TO tokens`); err != nil {
+			return "HARNESS-ERROR " + err.Error()
+		}
 	}
 	if code != 401 {
 		return "pass"
@@ -314,12 +331,12 @@ func c09Input(k c09Cfg, r c09Route, hdr string) string {
 func c09ParseInput(in string) (k c09Cfg, r c09Route, hdr string, err error) {
 	i := strings.Index(in, " H")
 	p := strings.Split(in, " ")
-	if i < 0 || len(p) < 4 || !strings.HasPrefix(p[0], "cfg=") || len(p[0]) != 7 {
+	if i < 0 || len(p) < 4 || !strings.HasPrefix(p[0], "cfg=") || (len(p[0]) != 7 && p[0][7:] != "f") {
 		return k, r, "", fmt.Errorf("bad input %q", in)
 	}
 	// header = everything after the third space + "H"
 	rest := strings.SplitN(in, " ", 4)
-	k = c09Cfg{p[0][4] == '1', p[0][5] == '1', p[0][6] == '1'}
+	k = c09Cfg{p[0][4] == '1', p[0][5] == '1', p[0][6] == '1', len(p[0]) == 8}
 	return k, c09Route{rest[1], rest[2]}, rest[3][1:], nil
 }
 
